@@ -116,7 +116,7 @@ def perms_for(rng, K, tier):
 _CCOUNT = [0]
 
 
-def make_case(rng, tier, i, name, aligner=False):
+def make_case(rng, tier, i, name, aligner=False, many=False):
     q = tier == 'quick'
     K = int(rng.integers(2, 5))
     D = int(rng.integers(2, 6))
@@ -129,6 +129,11 @@ def make_case(rng, tier, i, name, aligner=False):
     if name == 'cbmm':
         D, K = min(D, 3), min(K, 3)
     N = K * (D + 2) + int(rng.integers(0, 9 if name != 'cbmm' else 4))
+    if many:
+        # many frequency bins: the stack of class covariances handed to one M-step has more than 4096 matrices
+        K, D = 3, 2
+        N = 9
+        lead = (int(rng.integers(1370, 1500)),)
     data = mm.make_data(rng, name, K, D, N, lead, separation=float(rng.choice([0.5, 2.0, 8.0])))
     data = {k: v for k, v in data.items() if k != 'labels'}
     style = ['positive', 'dirichlet', 'onehot'][int(rng.integers(0, 3))] if name != 'cbmm' else ['positive', 'dirichlet'][int(rng.integers(0, 2))]
@@ -156,6 +161,9 @@ def make_case(rng, tier, i, name, aligner=False):
         else:
             opts['weight_constant_axis'] = [(-3,), (-3, -1), -3][int(rng.integers(0, 3))]
     iters = int(rng.integers(1, 6 if q else 21))
+    if many:
+        opts = {'weight_constant_axis': (-1,)}
+        iters = int(rng.integers(1, 3))
     if name == 'cbmm':
         iters = min(iters, 5 if q else 10)
     rp = {'fn': 'perm', 'model': name, 'data': data, 'init': init, 'opts': opts, 'aligner': bool(aligner and name not in mm.INTEGRATION),
@@ -376,6 +384,8 @@ def cases(rng, tier):
     al = ['cacgmm', 'cwmm', 'cbmm', 'gcacgmm', 'vmfcacgmm']
     for i in range(10 if q else 100):
         out.append(make_case(rng, tier, i, al[i % 5], aligner=True))
+    for i in range(2 if q else 6):
+        out.append(make_case(rng, tier, i, ['cacgmm', 'cwmm', 'cacgmm'][i % 3], many=True))
     return out
 
 
